@@ -260,6 +260,7 @@ def det_factory(case: dict, log: dict):
         return ge.E3(ids=ids)
 
     async def ask(self, ctx, ev):
+        log.setdefault("ask_in", []).append(VClock.t)
         reply = None
         if case.get("wait"):
             req = {"key": "k"} if case["wait"] == "req" else None
